@@ -1,0 +1,131 @@
+//! Verification hooks (feature `verif-hooks`)
+//!
+//! Re-exports of crate-private components, accessors for
+//! private constants, and a thread-local trace of the
+//! per-symbol "tick" data which crosses from the floating-point
+//! DSP into the discrete link/transport logic. Nothing here is
+//! compiled unless the `verif-hooks` feature is enabled.
+
+use std::cell::RefCell;
+
+pub use super::assembler::Assembler;
+pub use super::codesquelch::{CodeAndPowerSquelch, SquelchOut, SquelchState};
+pub use super::combiner::verif::{bit_vote_correct, bit_vote_detect, estimate_message};
+pub use super::framing::verif::{message_prefix_errors, prefix_search_len};
+pub use super::framing::Framer;
+
+use crate::message::MessageResult;
+
+/// One symbol tick, as seen by the discrete logic
+#[derive(Clone, Debug, Default, PartialEq, Eq)]
+pub struct TickRecord {
+    /// `input_sample_counter` when the symbol was delivered
+    pub sample: u64,
+    /// hard decision of the code correlator
+    pub bit: bool,
+    /// smoothed power at or above the open threshold
+    pub power_open: bool,
+    /// smoothed power at or above the close threshold
+    pub power_close: bool,
+    /// equalizer byte estimate, if the equalizer ran on this tick
+    pub byte: Option<u8>,
+}
+
+thread_local! {
+    static TRACE: RefCell<Vec<TickRecord>> = RefCell::new(Vec::new());
+    static TRACE_ON: RefCell<bool> = RefCell::new(false);
+}
+
+/// Enable or disable trace recording on this thread
+pub fn trace_enable(on: bool) {
+    TRACE_ON.with(|t| *t.borrow_mut() = on);
+}
+
+/// Take all recorded ticks
+pub fn take_trace() -> Vec<TickRecord> {
+    TRACE.with(|t| std::mem::take(&mut *t.borrow_mut()))
+}
+
+fn trace_is_on() -> bool {
+    TRACE_ON.with(|t| *t.borrow())
+}
+
+pub(crate) fn trace_tick(sample: u64) {
+    if trace_is_on() {
+        TRACE.with(|t| {
+            t.borrow_mut().push(TickRecord {
+                sample,
+                ..TickRecord::default()
+            })
+        });
+    }
+}
+
+pub(crate) fn trace_squelch(bit: bool, power_open: bool, power_close: bool) {
+    if trace_is_on() {
+        TRACE.with(|t| {
+            if let Some(last) = t.borrow_mut().last_mut() {
+                last.bit = bit;
+                last.power_open = power_open;
+                last.power_close = power_close;
+            }
+        });
+    }
+}
+
+pub(crate) fn trace_byte(byte: u8) {
+    if trace_is_on() {
+        TRACE.with(|t| {
+            if let Some(last) = t.borrow_mut().last_mut() {
+                last.byte = Some(byte);
+            }
+        });
+    }
+}
+
+/// Combine bursts into a message estimate
+pub fn combine(bursts: &[&[u8]]) -> Option<MessageResult> {
+    super::combiner::combine(bursts.iter())
+}
+
+/// Is the byte an allowed SAME character?
+pub fn is_allowed_byte(c: u8) -> bool {
+    super::combiner::is_allowed_byte(c)
+}
+
+/// Private constants of the receiver, for the model's `Generated.v`
+pub fn constants() -> Vec<(&'static str, u64)> {
+    vec![
+        (
+            "MAX_MESSAGE_LENGTH",
+            super::assembler::MAX_MESSAGE_LENGTH as u64,
+        ),
+        (
+            "MAX_INTERBURST_SYMBOLS",
+            super::assembler::MAX_INTERBURST_SYMBOLS,
+        ),
+        (
+            "MAX_HISTORY_DURATION",
+            super::assembler::MAX_HISTORY_DURATION,
+        ),
+        ("PREFIX_SEARCH_LEN", prefix_search_len() as u64),
+        (
+            "MAX_MESSAGE_DURATION_SECS",
+            super::SameReceiver::MAX_MESSAGE_DURATION_SECS,
+        ),
+        (
+            "PREAMBLE_SYNC_WORD",
+            super::waveform::PREAMBLE_SYNC_WORD as u64,
+        ),
+        ("PREAMBLE", super::waveform::PREAMBLE as u64),
+        (
+            "SQUELCH_OUTPUT_LENGTH",
+            CodeAndPowerSquelch::OUTPUT_LENGTH as u64,
+        ),
+    ]
+}
+
+/// Samples per symbol for the given sampling rate
+pub fn samples_per_symbol(fs: u32) -> f32 {
+    super::waveform::samples_per_symbol(fs)
+}
